@@ -50,6 +50,8 @@ ASSUMPTIONS = [
     "time across a DST change (Python arithmetic on aware datetimes); microseconds are ignored (floor to the second)",
     "periods: any timedelta step for get_tariffs (ints, floats such as 2.5 or 0.01 min, negative); Interface / "
     "energy_cost theorems are for whole-minute periods",
+    "vector length: the theorems hold for every n; the correspondence exercises n ≤ 2500 elements and spans up to "
+    "about 15 months (element k is looked up on its own: nothing may be reused from k − one day / week / year)",
     "aggregate power (acnsim.aggregate_power) is an input of the cost theorems (its definition is C18)",
     "cost theorems are over an ordered field; the implementation computes in doubles",
 ]
@@ -64,7 +66,7 @@ RULE = ("sweep cases: for a (file, year, month) every day × every breakpoint of
         "acnsim.energy_cost/demand_charge on random charging rates; load cases: loader output; decimal case: all "
         "86 400 seconds; thorough adds every minute of every day of the 14 years for all five files (run-length "
         "encoded per day).  non-trivial = touches an instant within 60 s of a breakpoint, a season boundary day, "
-        "or a vector that crosses midnight; distinct by hash of the case")
+        "or a vector that crosses midnight or spans more than a day; distinct by hash of the case")
 
 EPOCH = datetime(1970, 1, 1)
 OFFS = [0, -1, 1, -60, 60]
@@ -266,6 +268,20 @@ def corpus():
                 "T": 6, "n": 2, "volt": 240, "rates": [32]})
     out.append({"t": "run", "file": "pge_a10_tou_aug_2019", "sim_start": ep(datetime(2019, 10, 31, 23, 0)), "period": 15,
                 "T": 10, "n": 4, "volt": 208, "rates": [8, 0, 16]})
+    # longer than a week / four weeks / a year, the season changes after the first week (month, year) of the vector
+    out.append({"t": "vec", "file": "sce_tou_ev_4_march_2019", "start": ep(datetime(2019, 9, 16)), "us": 0, "n": 504, "period": 60, "long": "week"})
+    out.append({"t": "vec", "file": "sce_tou_ev_8_june_2019", "start": ep(datetime(2019, 5, 20, 0, 5)), "us": 0, "n": 1344, "period": 15, "long": "week"})
+    out.append({"t": "vec", "file": "pge_a10_tou_aug_2019", "start": ep(datetime(2019, 10, 1, 6, 0)), "us": 0, "n": 2400, "period": 20, "long": "4weeks"})
+    out.append({"t": "vec", "file": "sce_tou_ev_8_oct_2018", "start": ep(datetime(2019, 9, 20, 9, 0)), "us": 0, "n": 1500, "period": 11, "long": "week"})
+    out.append({"t": "vec", "file": "sce_tou_ev_4_march_2019_tou_periods_shifted", "start": ep(datetime(2018, 5, 20, 17, 0)), "us": 0, "n": 800, "period": 1440, "long": "year"})
+    out.append({"t": "vec", "file": "pge_a10_tou_aug_2019", "start": ep(datetime(2019, 4, 10, 9, 0)), "us": 0, "n": 820, "period": 720, "long": "leapyear"})
+    out.append({"t": "vec", "file": "sce_tou_ev_8_june_2019", "start": ep(datetime(2019, 10, 9, 12, 0)), "us": 0, "n": 300, "period": 1, "fperiod": -60, "long": "week"})
+    out.append({"t": "vec", "file": "sce_tou_ev_4_march_2019", "start": ep(datetime(2019, 5, 29, 7, 30)), "us": 0, "n": 200, "period": 30, "long": "day"})
+    out.append({"t": "iface", "file": "sce_tou_ev_4_march_2019", "sim_start": ep(datetime(2019, 9, 21, 0, 0)), "period": 60,
+                "rates": [[0] * 30 + [16, 32, 8, 0, 24] * 45 + [0] * 9], "volts": [208], "queries": [[0, 264], [100, 164], [264, 2], [200, 30]],
+                "iteration": 250, "long": "week"})
+    out.append({"t": "run", "file": "sce_tou_ev_8_june_2019", "sim_start": ep(datetime(2019, 5, 23, 6, 0)), "period": 60,
+                "T": 230, "n": 230, "volt": 240, "rates": [32, 16, 0, 8], "long": "week"})
     # microseconds just below / above a breakpoint
     out.append({"t": "instants", "file": "sce_tou_ev_4_march_2019", "us": 999999,
                 "ts": [ep(datetime(2019, 7, 1, 11, 59, 59)), ep(datetime(2019, 7, 1, 12, 0, 0)), ep(datetime(2019, 12, 31, 23, 59, 59))]})
@@ -346,6 +362,119 @@ def _gen_run(rng):
             "rates": [rng.choice([0, 6, 8, 16, 32, round(rng.uniform(0, 32), 2)]) for _ in range(rng.randint(1, 7))]}
 
 
+# ---- long-span stream: vectors / horizons / runs that are longer than the natural cycles of a schedule
+# (a day, a week, four weeks, 52 weeks, a year) and in which the applicable schedule changes AFTER at least one
+# whole cycle — what an implementation that reuses, tiles or caches lookups per (time of day) / (weekday, time) /
+# (month, day, time) gets wrong, while every vector shorter than the cycle is still answered correctly.
+
+CYCLES_MIN = {"day": 1440, "week": 10080, "4weeks": 40320, "52weeks": 524160, "year": 525600, "leapyear": 527040}
+LONG_PERIODS = [1, 5, 7, 10, 11, 15, 20, 30, 60, 90, 120, 180, 240, 360, 720, 1440]
+LONG_FLOAT_PERIODS = [0.5, 2.5, 7.25, 90.5, 360.25, 1440.5]
+LONG_NEG_PERIODS = [-15, -60, -90, -720, -1440]
+MAX_LONG_N = 2500
+
+
+def season_changes(name):
+    """(month, day) at whose midnight another season's entries start to apply"""
+    return sorted({_md(e["effective_start"]) for e in spec_file(name)["schedule"]})
+
+
+def _change_midnight(name, rng, md=None):
+    """midnight at which the applicable schedule changes: a season change (mostly), Fri→Sat / Sun→Mon,
+    new year, 29 Feb / 1 Mar of a leap year"""
+    y = rng.choice(YEARS14 + [rng.randint(1964, 2066)])
+    r = rng.random()
+    if md is None and r >= 0.65:
+        if r < 0.85:
+            d = datetime(y, rng.randint(1, 12), rng.randint(1, 25))
+            want = rng.choice([5, 0])
+            while d.weekday() != want:
+                d += timedelta(days=1)
+            return ep(d)
+        if r < 0.93:
+            return ep(datetime(y, 1, 1))
+        y = rng.choice(YEARS14[7:])          # leap years
+        return ep(datetime(y, *rng.choice([(2, 29), (3, 1)])))
+    mo, dd = md if md is not None else rng.choice(season_changes(name))
+    return ep(datetime(y, mo, dd))
+
+
+def _long_geometry(rng, cyc_name, boundary, periods, max_n):
+    """(start, period, n): the vector start + k·period, k < n, covers `lead` > j whole cycles before the
+    boundary (j ∈ {1,2,3}) and one to eight days after it; half of the time the boundary is hit exactly.
+    A negative period walks backwards through the boundary."""
+    cyc = CYCLES_MIN[cyc_name]
+    j = rng.choice([1, 1, 1, 2, 3]) if cyc <= 40320 else 1
+    lead = j * cyc + rng.randrange(1, cyc if cyc <= 40320 else 60 * 1440)
+    tail = rng.choice([1440 + rng.randrange(1440), 3 * 1440 + rng.randrange(1440), 8 * 1440])
+    ps = [q for q in periods if abs(q) <= cyc and (lead + tail) / abs(q) <= max_n] or [max(periods, key=abs)]
+    p = rng.choice(ps)
+    if rng.random() < 0.5:
+        lead -= lead % abs(p)
+    n = int((lead + tail) // abs(p)) + 1
+    jitter = rng.choice([0, 0, 0, 0, 1, -1, 30])
+    if p > 0:
+        start = boundary - int(round(lead * 60)) + jitter
+    else:
+        start = boundary + int(round(lead * 60)) + jitter
+    return start, p, n
+
+
+def _gen_vec_long(rng, f=None, cyc=None, md=None):
+    f = f or rng.choice(FILES)
+    cyc = cyc or rng.choice(["day", "week", "week", "week", "4weeks", "52weeks", "year", "leapyear"])
+    r = rng.random()
+    periods = LONG_PERIODS if r < 0.75 else (LONG_FLOAT_PERIODS if r < 0.87 else LONG_NEG_PERIODS)
+    start, p, n = _long_geometry(rng, cyc, _change_midnight(f, rng, md), periods, MAX_LONG_N)
+    case = {"t": "vec", "file": f, "start": start, "us": rng.choice([0] * 9 + [999999]), "n": n,
+            "period": p if isinstance(p, int) and p > 0 else 1, "long": cyc}
+    if not (isinstance(p, int) and p > 0):
+        case["fperiod"] = p
+    if rng.random() < 0.12:
+        case["tz"] = rng.choice(["America/Los_Angeles", "UTC", "Europe/Berlin", "+05:30", "-08:00"])
+    return case
+
+
+def _gen_iface_long(rng):
+    """an (idle) Simulator whose horizon is longer than a day / a week / four weeks: get_prices with a long
+    window from a late start index, energy_cost over the whole horizon (with idle head / tail periods)"""
+    f = rng.choice(FILES)
+    cyc = rng.choice(["day", "week", "week", "4weeks"])
+    start, p, T = _long_geometry(rng, cyc, _change_midnight(f, rng), [5, 15, 20, 30, 60, 120, 240, 720, 1440], 1200)
+    nev = rng.randint(1, 2)
+    head = rng.choice([0, 0, rng.randint(1, max(1, T // 2))])
+    tailz = rng.choice([0, 0, rng.randint(1, max(1, T // 3))])
+    pat = [rng.choice([0, 6, 8, 16, 32, round(rng.uniform(0, 32), 3)]) for _ in range(rng.randint(1, 29))]
+    rates = [[0 if (k < head or k >= T - tailz) else pat[(k + 3 * i) % len(pat)] for k in range(T)] for i in range(nev)]
+    a, b = rng.randint(0, T), rng.randint(0, T)
+    return {"t": "iface", "file": f, "sim_start": start, "period": p, "rates": rates,
+            "volts": [rng.choice([208, 240, 120, 277]) for _ in range(nev)],
+            "queries": [[0, T], [a, rng.randint(1, T)], [b, T], [T, 2]], "iteration": rng.randint(0, T), "long": cyc}
+
+
+def _gen_run_long(rng):
+    """a real Simulator run that lasts longer than a day / a week with a schedule change after the first cycle"""
+    f = rng.choice(FILES)
+    cyc = rng.choice(["day", "week", "week"])
+    start, p, T = _long_geometry(rng, cyc, _change_midnight(f, rng), [30, 60, 120, 240, 720], 420)
+    return {"t": "run", "file": f, "sim_start": start, "period": p, "T": T,
+            "n": rng.choice([T, T + 5, 2 * T, rng.randint(1, T)]), "volt": rng.choice([208, 240, 277]),
+            "rates": [rng.choice([0, 6, 8, 16, 32, round(rng.uniform(0, 32), 2)]) for _ in range(rng.randint(1, 7))],
+            "long": cyc}
+
+
+def _long_stream(rng, n_random):
+    out = []
+    # skeleton: every file × every season change × lead longer than {a day, a week, four weeks, about a year}
+    for f in FILES:
+        for md in season_changes(f):
+            for cyc in ("day", "week", "4weeks", rng.choice(["52weeks", "year", "leapyear"])):
+                out.append(_gen_vec_long(rng, f, cyc, md))
+    for j in range(n_random):
+        out.append(_gen_run_long(rng) if j % 6 == 5 else (_gen_iface_long(rng) if j % 6 == 2 else _gen_vec_long(rng)))
+    return out
+
+
 def generate(rng, n, tier):
     out = []
     # deterministic sweep: every day of the 14 calendar types, all five files
@@ -355,6 +484,7 @@ def generate(rng, n, tier):
                 out.append({"t": "sweep", "file": f, "year": y, "month": mo})
     for i in range(n):
         out.append(_gen_run(rng) if i % 3 == 2 else (_gen_iface(rng) if i % 9 == 4 else _gen_vec(rng)))
+    out.extend(_long_stream(rng, max(24, n // 5)))
     if tier == "thorough":
         for f in FILES:
             for y in YEARS14:
@@ -373,6 +503,7 @@ def search(rng, n):
                 out.append({"t": "sweep", "file": f, "year": y, "month": mo})
     for i in range(n):
         out.append(_gen_run(rng) if i % 3 == 2 else _gen_vec(rng))
+    out.extend(_long_stream(rng, max(24, n // 3)))
     return out
 
 
@@ -385,6 +516,16 @@ def shrink(case, kind):
             o = run_impl(one)
             if any(f["kind"] == kind for f in oracle(one, o)):
                 return one
+    if case["t"] == "vec" and case["n"] > 1:
+        def fails(n):
+            c = dict(case, n=n)
+            return any(f["kind"] == kind for f in oracle(c, run_impl(c)))
+        lo, hi = 0, case["n"]            # shortest failing prefix (bisection; verified below)
+        while hi - lo > 1:
+            mid = (lo + hi) // 2
+            lo, hi = (lo, mid) if fails(mid) else (mid, hi)
+        if hi < case["n"] and fails(hi):
+            return dict(case, n=hi)
     return case
 
 
@@ -926,8 +1067,52 @@ def nontrivial(case, obs):
         # the rates differ inside the run, so a window shifted by the wrong start is visible
         return isinstance(obs["whole"], list) and len(set(obs["whole"])) > 1
     if t == "vec":
-        return case["n"] > 0 and (case["start"] % 86400) + case["n"] * case["period"] * 60 > 86400 or case["n"] >= 10
+        return case["n"] > 0 and (case["start"] % 86400) + case["n"] * case["period"] * 60 > 86400 or case["n"] >= 10 \
+            or abs(span_minutes(case)) > 1440
     return True
+
+
+def span_minutes(case):
+    return case["n"] * vec_period(case)
+
+
+def _season_key(name, d):
+    md = (d.month, d.day)
+    out = []
+    for e in spec_file(name)["schedule"]:
+        a, b = _md(e["effective_start"]), _md(e["effective_end"])
+        if (a <= md <= b) if a <= b else (md >= a or md <= b):
+            out.append(str(e["id"]))
+    return tuple(out)
+
+
+def _span_features(tag, name, start, n, period):
+    """how long the vector is compared with the natural cycles, and after how many whole cycles the season
+    (set of entries in effect) changes inside it"""
+    if n < 2:
+        return []
+    a, b = start, start + (n - 1) * timedelta(minutes=period)
+    lo, hi = min(a, b), max(a, b)
+    days = (hi - lo) / timedelta(days=1)
+    out = []
+    for lab, c in (("1d", 1), ("7d", 7), ("28d", 28), ("364d", 364), ("366d", 366)):
+        if days > c:
+            out.append(f"{tag}_span>{lab}")
+    if days > 1:
+        # first day (walking in the direction of the vector) on which another season applies
+        step = 1 if b >= a else -1
+        k0 = _season_key(name, a)
+        for i in range(1, int(days) + 2):
+            d = a + step * timedelta(days=i)
+            d = d.replace(hour=0, minute=0, second=0, microsecond=0) if step > 0 else d
+            if (d > hi if step > 0 else d < lo):
+                break
+            if _season_key(name, d) != k0:
+                off = abs((d - a) / timedelta(days=1))
+                lab = "1y" if off > 365 else "4w" if off > 28 else "1w" if off > 7 else "1d" if off > 1 else "0"
+                out.append(f"{tag}_season_change_after>{lab}")
+                break
+    return out
 
 
 def features(case, obs):
@@ -953,6 +1138,7 @@ def features(case, obs):
             out.append("tz:" + case["tz"])
         if "fperiod" in case:
             out.append("float_period:" + str(round(case["fperiod"], 5)))
+        out.extend(_span_features("vec", case["file"], vec_start(case, aware=False), case["n"], vec_period(case)))
     if t == "run":
         out.append("period:" + str(case["period"]))
         seen = set()
@@ -966,8 +1152,15 @@ def features(case, obs):
         if isinstance(obs["whole"], list) and len(set(obs["whole"])) > 1:
             seen.add("run_crosses_rate_change")
         out.extend(sorted(seen))
+        out.extend(_span_features("run", case["file"], dt(case["sim_start"]), len(obs["agg"]), case["period"]))
     if t == "iface":
         out.append("period:" + str(case["period"]))
+        out.extend(_span_features("cost", case["file"], dt(case["sim_start"]), len(obs["agg"]), case["period"]))
+        for idx, n in case["queries"]:
+            out.extend(_span_features("prices", case["file"], dt(case["sim_start"]) + idx * timedelta(minutes=case["period"]),
+                                      n, case["period"]))
+        if obs["agg"] and obs["agg"][0] == 0 and any(obs["agg"]):
+            out.append("cost_idle_head")
         out.append("cost_result:" + ("error" if isinstance(obs["energy_cost"], str) else "ok"))
     return out
 
